@@ -283,7 +283,9 @@ def fixed_templates():
     t.append("def test(a: Tuple[()], b: bool) -> bool:\n    return b")
     t.append("def test(u: Tuple[Tuple[()], Qint[2], bool]) -> Qint[2]:\n    v = u\n    return v[1] if v[2] else u[1] + 1")
     t.append("def test(a: bool) -> bool:\n    u = ((), a)\n    w = u[0]\n    return u[1]")
+    t.append("def test(a: bool, q: Qint[2]) -> Qint[2]:\n    u = ((), a)\n    t = (u[0], q)\n    return t[1]")
     t.append("def test(a: bool) -> Tuple[Tuple[()], bool]:\n    u = ((), a)\n    w = u[0]\n    return (w, a)")
+    t.append("def test(a: bool, q: Qint[2]) -> Tuple[Tuple[()], Qint[2]]:\n    u = (q, (), a)\n    return (u[1], u[0] + 1)")
     t.append("def test(a: bool) -> bool:\n    u = (a, ())\n    return u == u")
     t.append("def test(a: bool, b: bool, c: bool) -> bool:\n    u = (a, (), b)\n    w = (b, (), a)\n    return u == w")
     t.append("def test(a: bool, c: bool) -> bool:\n    u = ((), a) if c else ((), c)\n    return u[1]")
@@ -1166,7 +1168,7 @@ def collect(tier, seed, jobs=16, only=None, progs=None):
                           heavy_multiplications=len([r for r in okr if r.get("heavy")]),
                           constructs=dict(used.most_common()), coq_files=len(files),
                           outside_theorem_guards=len(guard_out),
-                          guard_is="sub_ne and seq_ok (stmt_guard / body_guard of M_Texp.v)",
+                          guard_is="seq_ok only (stmt_guard / body_guard of M_Texp.v)",
                           numbering_table_fails_hygiene=len(hyg_out - guard_out),
                           outside_signature_hypotheses=len(wf_out),
                           outside_hypotheses_examples=[by_id[i]["src"] for i in sorted(wf_out | (hyg_out - guard_out))[:10]],
